@@ -187,6 +187,9 @@ def binaryOp (k : BinKind) (l r : Val) : OpRes :=
     | .str s, .int n | .int n, .str s =>
       if k == .arith .mul then
         if n < 0 then .err "negative repetition count."
+        -- `String::repeat` aborts with "capacity overflow" / allocation failure for absurd sizes;
+        -- the executable model does not attempt them (the property excludes them)
+        else if s.utf8ByteSize * n.toNatClampNeg > 16777216 then .panic "capacity overflow"
         else .ok (.str (repeatStr s n.toNatClampNeg))
       else .err "Invalid operation on strings."
     | .arr _ a, .arr _ b =>
